@@ -6,7 +6,9 @@ META = dict(
          "(thorough adds 6 on 3x3, 4 on 5x5, 5 on 4x4) that forms a simple polygon - decided by exact segment-intersection tests - is queried at every point of the grid "
          "enlarged by a one-cell margin: inside/outside with both side flags, insideOnly, outsideOnly, sideOnly and wind are compared with an exact "
          "classification IN / ON / OUT (boundary by integer collinearity, interior by the parity of proper crossings of a ray whose slope avoids "
-         "every lattice point). tween2 is checked for every (p, u, v) triple of the grid.",
+         "every lattice point). tween2 is checked for every (p, u, v) triple of the grid. A second family has long sides: from (0,0) along every primitive "
+         "direction with |dx|,|dy| <= 3 (4 in thorough) and every side extent 15..40 (64), a thin triangle and a parallelogram in both vertex orders, "
+         "queried at every lattice point of every side and its four neighbours (float-scaling collinearity tests only fail on long sides).",
     note="Exhaustive only for the stated vertex counts and grid sizes; integer coordinates only (as in the statement); the 'random larger polygons' "
          "supplement of the quantifier is not part of this family.",
 )
@@ -93,6 +95,46 @@ def polygons(k, n, i0, i1):
         yield (first, second) + tail
 
 
+def directions(m):
+    """Primitive lattice directions with max(|dx|, |dy|) == m, all signs, sorted."""
+    import math
+    return sorted((dx, dy) for dx in range(-m, m + 1) for dy in range(-m, m + 1)
+                  if max(abs(dx), abs(dy)) == m and math.gcd(abs(dx), abs(dy)) == 1)
+
+
+def lattice_on(a, b):
+    import math
+    g = math.gcd(abs(b[0] - a[0]), abs(b[1] - a[1]))
+    return [(a[0] + (b[0] - a[0]) // g * t, a[1] + (b[1] - a[1]) // g * t) for t in range(g + 1)]
+
+
+def long_sided(direction, tier):
+    """Polygons with a long side from (0,0) along `direction`: every extent 15..40 (64 thorough) of that side; a thin triangle
+    (apex one perpendicular step from the start) and a parallelogram (three perpendicular steps), both vertex orders (thorough:
+    every rotation too, and apex heights 1 and 5); queried at EVERY lattice point of every side and its four neighbours."""
+    dx, dy = direction
+    m = max(abs(dx), abs(dy))
+    hi = 40 if tier == "quick" else 64
+    nx, ny = -dy, dx        # perpendicular
+    for L in range(-(-15 // m), hi // m + 1):
+        B = (dx * L, dy * L)
+        shapes = []
+        for h in ((1,) if tier == "quick" else (1, 5)):
+            shapes.append(((0, 0), B, (nx * h, ny * h)))
+        shapes.append(((0, 0), B, (B[0] + 3 * nx, B[1] + 3 * ny), (3 * nx, 3 * ny)))
+        for shape in shapes:
+            orders = [shape, tuple(reversed(shape))]
+            if tier != "quick":
+                orders = [o[r:] + o[:r] for o in orders for r in range(len(o))]
+            ext = max(max(abs(x), abs(y)) for x, y in shape)
+            for poly in orders:
+                pts = set()
+                for i in range(len(poly)):
+                    for (x, y) in lattice_on(poly[i], poly[(i + 1) % len(poly)]):
+                        pts.update(((x, y), (x + 1, y), (x - 1, y), (x, y + 1), (x, y - 1)))
+                yield poly, sorted(pts), 4 * ext + 10, "long-sided family, direction max(|dx|,|dy|)=%d" % m
+
+
 def work(job):
     core.use_repo()
     from ioflo.aid import vectoring as vec
@@ -121,9 +163,13 @@ def work(job):
         tag_job(p, job)
         return p
 
-    _, k, n, i0, i1 = job
-    far = n + 2 * MARGIN + 2
-    pts = [(x, y) for x in range(-MARGIN, n + MARGIN) for y in range(-MARGIN, n + MARGIN)]
+    if kind == "long":
+        source = long_sided(job[1], job[2])
+    else:
+        _, k, n, i0, i1 = job
+        far0 = n + 2 * MARGIN + 2
+        pts0 = [(x, y) for x in range(-MARGIN, n + MARGIN) for y in range(-MARGIN, n + MARGIN)]
+        source = ((poly, pts0, far0, "%d vertices on %dx%d" % (k, n, n)) for poly in polygons(k, n, i0, i1))
     preds = (
         ("inside(side=True)", lambda q, vs: vec.inside(q, vs, side=True), ("IN", "ON")),
         ("inside(side=False)", lambda q, vs: vec.inside(q, vs, side=False), ("IN",)),
@@ -135,7 +181,7 @@ def work(job):
         ("outsideOnly", lambda q, vs: vec.outsideOnly(q, vs), ("OUT",)),
         ("sideOnly", lambda q, vs: vec.sideOnly(q, vs), ("ON",)),
     )
-    for poly in polygons(k, n, i0, i1):
+    for poly, pts, far, label in source:
         if not is_simple(poly):
             p.notes["vertex sequences skipped: not a simple polygon"] += 1
             continue
@@ -179,9 +225,9 @@ def work(job):
                 raise core.BrokenCheck("polygon list mutated by ioflo")
         if nin:
             p.notes["polygons with interior lattice points"] += 1
-        p.notes["simple polygons, %d vertices on %dx%d" % (k, n, n)] += 1
-        if p.notes["simple polygons, %d vertices on %dx%d" % (k, n, n)] == 7:
-            p.sample(dict(polygon=vs, classes={"%d,%d" % q: classify(q, poly, far) for q in pts if 0 <= q[0] < n and 0 <= q[1] < n}), limit=2)
+        p.notes["simple polygons, %s" % label] += 1
+        if p.notes["simple polygons, %s" % label] == 7:
+            p.sample(dict(polygon=vs, classes={"%d,%d" % q: classify(q, poly, far) for q in pts[:40]}), limit=2)
     tag_job(p, job)
     return p
 
@@ -239,6 +285,9 @@ def run():
                     jobs.append(("poly", k, n, i0, i1))
     for i0 in range(16):
         jobs.append(("tween2", 4, i0))
+    for m in ((1, 2, 3) if core.TIER == "quick" else (1, 2, 3, 4)):
+        for d in directions(m):
+            jobs.append(("long", d, core.TIER))
     ck.merge(core.pmap(work, jobs))
     ck.assumptions = [
         "simple polygon = distinct vertices, non-adjacent edges disjoint, adjacent edges sharing only their common vertex; straight-angle vertices are allowed",
@@ -250,8 +299,10 @@ def run():
     ]
     return ck.finish(
         rule="every ordered sequence of k distinct points of an n x n integer grid forming a simple polygon, (k,n) in %s, each queried at all (n+2)^2 points of the grid "
-             "plus a one-cell margin with 9 predicate variants and wind; tween2 for all u,v in the 4x4 grid and p in the 6x6 grid. distinct = simple polygons "
-             "(as vertex sequences) plus non-trivial tween2 triples (p strictly between u and v)." % (families(),),
+             "plus a one-cell margin with 9 predicate variants and wind; tween2 for all u,v in the 4x4 grid and p in the 6x6 grid; long-sided family: side (0,0)->L*(dx,dy) "
+             "for every primitive (dx,dy) with max(|dx|,|dy|) <= %d and every L with 15 <= L*max(|dx|,|dy|) <= %d, thin triangle + parallelogram, both orders, every "
+             "lattice point on every side and its 4 neighbours. distinct = simple polygons "
+             "(as vertex sequences) plus non-trivial tween2 triples (p strictly between u and v)." % (families(), 3 if core.TIER == "quick" else 4, 40 if core.TIER == "quick" else 64),
         exhaustive=True)
 
 
